@@ -159,6 +159,18 @@ def build (es : List Entry) : Built :=
   let ok := r.1.filter valid
   ⟨ok, statusOf ok.length r.2 (r.1.filter (fun m => !valid m)).length⟩
 
+/-- What an entry contributes to the build: its modifier if it converts and passes validation. -/
+def emitted (e : Entry) : Option Modifier := (convertEntry e).filter valid
+
+/-- Entries counted as failures (build failure or validation failure). -/
+def failures (es : List Entry) : Nat := es.countP fun e => (emitted e).isNone
+
+/-- Sample entries (non-vacuity examples): LocationGroupModifier on the ship with a string group id and a
+    fractional affector id; LocationModifier on `otherID` (converts, fails validation); no domain key. -/
+def okEntry : Entry := .dict (.known .locationGroup) .shipID (.int 6) (.intStr 55) .missing (.int 30) (.float 419 10)
+def invalidEntry : Entry := .dict (.known .location) .otherID (.int 2) .missing .missing (.int 30) (.int 40)
+def badEntry : Entry := .dict (.known .item) .missing (.int 2) .missing .missing (.int 30) (.int 40)
+
 /-! ### Transport of the generated decision table (`EosGen.ModInfoTable*`)
 
 A row is `(entry code, outcome code, build view)`, decimal-digit records.
